@@ -11,6 +11,26 @@ CLAIMED = {
             "Seeded search over interleavings (object-store-request granularity) of 2..4 real ObjectStoreMetadataClients with injected request failures (before/after effect) and delays; every catalog.json version ever written is checked to be exactly one model step of exactly one in-flight operation, with index/map agreement on every version. Sampling, not proof: the quantifier is all schedules x histories, which only a search can approach.",
             "Trusts object_store::memory::InMemory as the model of S3 conditional PUT; a lost response (fail-after-effect) may legitimately leave one applied version behind a failed call.",
             "DESIGN.md section 3 C02"),
+    "C11": ("query", "exploration",
+            "deterministic simulation's storage seam as the observation instrument: generated statement grammar x entry points (in-process HTTP router, direct, Flight-SQL prepare/analyze, streaming), per-issuer request log + full store digest + probe query after every statement",
+            "Store populated through the real ingester; real QueryNode behind the real axum router called in-process (no sockets) plus the direct, prepare/analyze and streaming entry points; 8..16 statements per run from a grammar over COPY TO / CREATE [EXTERNAL] TABLE / VIEW / CTAS / DROP / INSERT / SET / EXPLAIN [ANALYZE] of those / multi-statement strings with targets among fresh paths, existing chunk paths and the catalog object, plus plain SELECT/EXPLAIN controls. After every statement: the query node's store handle issued no PUT/DELETE/COPY, the full object listing (path, size, ETag) is unchanged, a fixed probe query answers the same, and a mutating statement returned an error.",
+            "No schedule or fault dimension in this statement; the statement space is seeded generation, the simulator contributes the per-issuer request log.",
+            "DESIGN.md section 3 C11"),
+    "C15": ("query", "exploration",
+            "deterministic simulation with reference model: real ingester under a real split state (dual-write / back-fill), generated batches around the split point incl. several series per (timestamp, metric); per-shard row-id routing oracle and reference-SQL read oracle",
+            "Split state set through the real catalog operations under the shard id the ingester itself derives; accepted Int64-timestamp batches with rows below / at / above the split point; routing: ids under new shard A == accepted rows with ts < split, under B ts >= split (rows at the split point go to B), each once per accepted write, old shard holds every row; reads: 4..6 statement forms (with/without key columns, aggregates, GROUP BY, narrow window at the split point) through a real QueryNode during the split must equal the same SQL on a MemTable of the accepted rows.",
+            "Int64 timestamps only (other types are rejected by the dual-write path, i.e. not accepted); one metric per batch.",
+            "DESIGN.md section 3 C15"),
+    "C16": ("query", "exploration",
+            "deterministic simulation: seeded interleaving of concurrent readers at the backing store's requests (concurrent misses on the same / different keys), store faults on the miss path, swarm of tier sizes; byte-exact oracle against the backing store",
+            "Real CachedObjectStore + TieredCache over the simulated store, growing write-once key set (80..200 objects, 1 B..6 KB) written in waves, 2..4 concurrent readers issuing whole / ranged / conditional reads and reads of never-written keys (sharing file names and prefixes with written ones), L1 from 300 B (evict on every insert) to 8 MB, no disk tier in the seeded phase, foyer disk tier in a thorough-only phase; whenever a read returns bytes they equal the backing store's object (range), a missing key fails, a wrong If-Match fails; injected backing-store failures may fail a read but never produce wrong bytes.",
+            "Write-once objects; foyer's disk tier runs its own threads, so with L2 only the verdict (not the event log) is timing-independent.",
+            "DESIGN.md section 3 C16"),
+    "C18": ("query", "exploration",
+            "deterministic simulation on the virtual clock: real ingester flushes interleaved by the scheduler with the real streaming executor's forwarding task; reference evaluation of the WHERE clause per flushed batch; independent evaluation of topic filters",
+            "One streaming SQL subscription (legacy or topic-filtered) with a WHERE generated from the supported family (comparisons in both operand orders on string / nullable string / integer / float columns incl. literals of the other numeric type, AND, OR, nesting) plus 1..3 raw topic subscriptions with generated All/Shard/Tenant/Metrics/And/Or filters; batches of both timestamp types, nulls, 1..3 metrics, flushed after the subscription call returned with timestamps before and after the merge point but never inside the call's own interval. Delivered live rows == rows >= merge point satisfying the WHERE as evaluated by DataFusion on that batch, each once, batches in flush order; a topic subscription receives a batch iff the independently evaluated filter holds.",
+            "Subscriber keeps up; merge-point ambiguity is kept out of the verdict by construction of the timestamps.",
+            "DESIGN.md section 3 C18"),
     "C14": ("split", "fault_enumeration",
             "deterministic simulation with fault injection: systematic sweep failing / crashing the split at every object-store request (before and after its effect) followed by a fault-free resume driver, plus seeded nested interruptions; end-state, row-conservation and early-delete oracles",
             "Real ShardSplitter (five phases, virtual 10 s / 300 s sleeps) on both catalog backends over generated old-shard datasets with rows below / at / above the split point. Sweep: one run per (request index of the fault-free split) x {fail before, fail after, crash before, crash after}; random: 2..3 nested interruptions also inside resumed runs. Driver: resume while a progress file exists, else restart if the old shard is still Active, <= 6 fault-free attempts with fresh clients. Oracle: two Active new shards partitioning the old range at the split point, old shard PendingDeletion, no split state, no progress file, every old row in exactly one new shard on the correct side, no old-shard file or catalog entry removed before complete_split took effect; a resume failing on every fault-free attempt is the violation 'cannot be resumed'.",
